@@ -78,6 +78,14 @@ func (prop) Gen(r *core.Rand, tier string) []core.Case {
 		}
 		cs = append(cs, rec)
 	}
+	// keys whose public key has a coordinate with a leading zero byte (about 1 key in 128): the owner is
+	// keccak(X32 || Y32)[12:] with both coordinates LEFT-PADDED to 32 bytes — an address derivation that
+	// concatenates minimal big-endian encodings agrees on all other keys
+	for k, key := range []string{"a297ff76f00f2c7e3395811f24dd0d39eea816b14662319adb65d7965f6018e9", "59cd2490b21bf8b0c02bd2c3e8d6862c82ded61039c1598a0b0f9ced42728543",
+		"63189519a07bc13631bd78e7077feaaa9a777554db5777127e4f33e1ad7e930b", "0ca8dfd0a003989db05d2de178969fb3a0701b1ff498afab22c12d6b2a7ef833"} {
+		cs = append(cs, core.Case{ID: fmt.Sprintf("fix-short-coordinate-%d", k), NT: true, Ops: []string{"sign " + key + " " + core.Hex(r.Bytes(32)) + " g:9:77", "valid", "parse",
+			"mutd 110 1", "valid", "mutd 110 1", "valid"}})
+	}
 	cs = append(cs, core.Case{ID: "fix-malformed", Ops: []string{"valid", "set " + id1 + " h:-", "valid", "parse", "set " + id1 + " g:1:104", "valid", "set " + id1 + " g:1:105", "valid", "parse",
 		fmt.Sprintf("set %s p:2:%d:700", id1, C+hdr), "valid", fmt.Sprintf("set %s p:2:%d:700", id1, C+hdr+1), "valid", "parse", "addr " + id1 + " " + core.Hex(bytes.Repeat([]byte{3}, 20)), "addr - -"}})
 	bigUsed := 0
